@@ -78,6 +78,10 @@ impl Tunnel {
             (shutdown.notification_handler(), shutdown.completion_guard())
         };
         tokio::select! {
+            // a shutdown also takes the listeners away, which makes a QUIC session's `listen`
+            // fail at the same moment: the notification has to win, or the session would end
+            // without closing its connection
+            biased;
             x = shutdown_notification.wait() => {
                 match x {
                     Ok(_) => self.downstream.graceful_shutdown().await,
